@@ -236,7 +236,11 @@ class Cx:
         return v
 
     def str(self, name):
-        return Sym(z3.Const(name, T.Str), 'str')
+        c = z3.Const(name, T.Str)
+        # a Python str is a sequence of code points: no negative element (negative codes are spec-side markers)
+        from .models import any_fold
+        self.assumes.append(z3.Not(any_fold(T.NEGATIVE).state((0,), c)[0] == 1))
+        return Sym(c, 'str')
 
     def int(self, name):
         return Sym(z3.Const(name, T.Int), 'int')
